@@ -72,7 +72,22 @@ func c32Scenarios() []c32Scenario {
 			vsched.Logf("return-call:%s", x)
 		}
 	}
+	// quiesceThenRet waits until nothing else can run (every request has been fully
+	// processed and the loop is idle), records that, and only then asks the loop to
+	// return: a redraw request must have been served by then on its own, without the
+	// help of a later event.
+	quiesceThenRet := func(x string) func(lp *loop) {
+		return func(lp *loop) {
+			vsched.Sleep(1 << 30)
+			vsched.Logf("quiescent")
+			lp.Return(x, nil)
+			vsched.Logf("return-call:%s", x)
+		}
+	}
 	return []c32Scenario{
+		{"partial+full-then-idle", mk(redraw(false), redraw(true), quiesceThenRet("x"))},
+		{"full+input-then-idle", mk(redraw(true), input("e1"), quiesceThenRet("x"))},
+		{"two-full-then-idle", mk(redraw(true), redraw(true), quiesceThenRet("x"))},
 		{"inputs+full+ret", mk(input("e1", "e2"), redraw(true), ret("x"))},
 		{"inputs-handler-returns+partial", mk(input("e1", "e2!"), redraw(false))},
 		{"two-producers+full", mk(input("e1", "e2!"), input("f1"), redraw(true))},
@@ -175,6 +190,38 @@ func c32Oracle(r *vsched.Result) (string, string) {
 		}
 	}
 	_, _ = sent, handled
+	// R2'/R3' (idle loop): a request completed before the system went quiescent must have been
+	// served before that point: a redraw started after it, and for a full request a full redraw.
+	quiet := -1
+	for i, l := range log {
+		if l == "quiescent" {
+			quiet = i
+		}
+	}
+	if quiet >= 0 {
+		for i, l := range log[:quiet] {
+			if !strings.HasPrefix(l, "redraw-req-done:") {
+				continue
+			}
+			any, full := false, false
+			for j := i + 1; j < quiet; j++ {
+				if strings.HasPrefix(log[j], "redraw:") {
+					any = true
+					var f redrawFlag
+					fmt.Sscanf(log[j], "redraw:%d", &f)
+					if f&fullRedraw != 0 {
+						full = true
+					}
+				}
+			}
+			if !any {
+				return "R2-lost-redraw", fmt.Sprintf("redraw request completed at %d; the loop went idle at %d without starting a redraw after it", i, quiet)
+			}
+			if l == "redraw-req-done:true" && !full {
+				return "R3-full-downgraded", fmt.Sprintf("full redraw request completed at %d; the loop went idle at %d having done only partial redraws", i, quiet)
+			}
+		}
+	}
 	// R2/R3
 	for i, l := range log {
 		if !strings.HasPrefix(l, "redraw-req-done:") || i > finalAt {
@@ -232,7 +279,7 @@ func c32Oracle(r *vsched.Result) (string, string) {
 func TestVerifC32(t *testing.T) {
 	vk.Run(t, "C32", "exploration", func(c *vk.Ctx) {
 		bound := vk.Pick(c, 2, 3)
-		c.Rule(fmt.Sprintf("every schedule (at synchronisation granularity: mutex, channel send/recv, select incl. tie-breaks) of 6 closed scenarios around the real cli.loop with <=%d preemptions, stateless DFS; class = distinct complete observation log", bound))
+		c.Rule(fmt.Sprintf("every schedule (at synchronisation granularity: mutex, channel send/recv, select incl. tie-breaks) of 9 closed scenarios (three of which let the loop go idle before asking it to return) around the real cli.loop with <=%d preemptions, stateless DFS; class = distinct complete observation log", bound))
 		c.Assume("loop.go is rewritten so that its sync/channel operations go through the controlled scheduler; memory-model effects below that granularity are not explored")
 		var total, maxPts int64
 		for _, sc := range c32Scenarios() {
